@@ -1293,3 +1293,127 @@ c06_stale_bytes!(c06_byte_reader_seek_drops_stale_no_table, None, 0);
 // position a value read from the heap-allocated table; the skip loop with its
 // VecDeque/Frame::iter refill is then explored symbolically and does not finish
 // in 900 s - outside the claim)
+
+// ===========================================================================
+// C14 / C05: a stream that ends (cleanly or inside a frame)
+// ===========================================================================
+
+/// header reader that may also hit the end of the data
+fn stub_header_read_eof<R: std::io::Read>(_reader: &mut R, streaminfo: &Streaminfo) -> Result<FrameHeader, Error> {
+    let sel: u8 = kani::any();
+    if sel == 0 {
+        return Err(Error::Io(std::io::Error::from(std::io::ErrorKind::UnexpectedEof)));
+    }
+    if sel == 1 {
+        return Err(Error::InvalidSyncCode);
+    }
+    let b: u16 = kani::any();
+    kani::assume(b >= 1 && b <= streaminfo.maximum_block_size);
+    Ok(FrameHeader {
+        blocking_strategy: false,
+        block_size: BlockSize::Uncommon16(b),
+        sample_rate: SampleRate::Hz44100,
+        channel_assignment: ChannelAssignment::Independent(Independent::Mono),
+        bits_per_sample: BitsPerSample::Bps16,
+        frame_number: FrameNumber(0),
+    })
+}
+
+/// subframe reader that may hit the end of the data inside the frame
+fn stub_read_subframes_eof<R: BitRead>(mut reader: R, _header: &FrameHeader, _buf: &mut Frame) -> Result<(), Error> {
+    let _ = reader.read::<8, u8>();
+    let _ = reader.read::<8, u8>();
+    let sel: u8 = kani::any();
+    match sel {
+        0 => Err(Error::Io(std::io::Error::from(std::io::ErrorKind::UnexpectedEof))),
+        1 => Err(Error::InvalidPartitionOrder),
+        _ => Ok(()),
+    }
+}
+
+// @harness prop=C14,C05 tier=quick expect=pass timeout=900 replay=driver
+// @units decode::Decoder::read_frame (end-of-data handling)
+// @stubs stream::FrameHeader::read decode::read_subframes
+// @bound one call from an arbitrary state; total declared (1..2^36-1, current <= total) or undeclared; the data may end before the header (clean cut at a frame boundary), inside the header/subframes (cut inside a frame) or not at all; CRC-16 register arbitrary
+// @oracle undeclared total + data ending before a header => Ok(None) (end of stream), never samples; declared total with samples still due => that same cut is an error; a cut inside a frame is always an error; a frame is only delivered with a valid CRC-16 and advances the counter by its block size; errors leave the counter alone
+#[kani::proof]
+#[kani::unwind(4)]
+#[kani::stub(FrameHeader::read, stub_header_read_eof)]
+#[kani::stub(read_subframes, stub_read_subframes_eof)]
+fn c14_read_frame_at_end_of_data() {
+    let declared: bool = kani::any();
+    let total: u64 = kani::any();
+    kani::assume(total >= 1 && total < (1 << 36));
+    let cur: u64 = kani::any();
+    kani::assume(cur < (1 << 36));
+    if declared {
+        kani::assume(cur <= total);
+    }
+    let mut si = model_streaminfo(1, 16, if declared { total } else { 0 });
+    si.maximum_block_size = kani::any();
+    let mut d = Decoder::new(AnyBytes, BlockList::new(si));
+    d.current_sample = cur;
+    let r = d.read_frame().map(|f| f.is_some());
+    match &r {
+        Ok(true) => assert!(d.current_sample > cur && d.current_sample - cur <= 65535),
+        Ok(false) => {
+            assert!(d.current_sample == cur);
+            if declared {
+                assert!(cur == total);
+            }
+        }
+        Err(e) => {
+            assert!(d.current_sample == cur);
+            if declared {
+                assert!(cur < total);
+            }
+            let _ = e;
+        }
+    }
+    kani::cover!(!declared && matches!(r, Ok(false)));
+    kani::cover!(declared && matches!(&r, Err(Error::Io(_))));
+    kani::cover!(!declared && matches!(&r, Err(Error::Io(_))));
+    std::mem::forget(r);
+    std::mem::forget(d);
+}
+
+// vacuity twins: the end of each harness family is reachable
+// @harness prop=C05,C14 tier=quick expect=fail timeout=600
+// @units decode::Decoder::read_frame
+// @bound reachability witness for the read_frame accounting harnesses: a frame can be delivered
+#[kani::proof]
+#[kani::unwind(4)]
+#[kani::stub(FrameHeader::read, stub_header_read)]
+#[kani::stub(read_subframes, stub_read_subframes)]
+fn c05_read_frame_accounting_twin() {
+    let mut d = Decoder::new(AnyBytes, BlockList::new(model_streaminfo(1, 16, 100)));
+    d.current_sample = 0;
+    let r = d.read_frame().map(|f| f.is_some());
+    if matches!(r, Ok(true)) {
+        assert!(false);
+    }
+    std::mem::forget(r);
+    std::mem::forget(d);
+}
+
+// @harness prop=C06 tier=quick expect=fail timeout=600
+// @units decode::Decoder::seek
+// @bound reachability witness for c06_decoder_seek_table3: a non-trivial table passes the constructor and the seek succeeds
+#[kani::proof]
+#[kani::unwind(6)]
+fn c06_decoder_seek_twin() {
+    let pts = [any_seekpoint(), any_seekpoint(), any_seekpoint()];
+    let table = crate::metadata::contiguous::Contiguous::<{ SeekTable::MAX_POINTS }, SeekPoint>::try_from(
+        vec![pts[0].clone(), pts[1].clone(), pts[2].clone()],
+    );
+    kani::assume(table.is_ok());
+    let mut blocks = BlockList::new(model_streaminfo(1, 16, 0));
+    blocks.insert(SeekTable { points: table.unwrap() });
+    let mut d = Decoder::new(PosReader { pos: 0, seeks: 0 }, blocks);
+    let r = d.seek(1, kani::any());
+    if matches!(r, Ok(s) if s > 0) {
+        assert!(false);
+    }
+    std::mem::forget(r);
+    std::mem::forget(d);
+}
